@@ -29,7 +29,7 @@ Next ==
   \/ \E f \in {1, 2} : ChildClose(1, f)
 
 Spec == Init /\ [][Next]_vars
-Export == (Len(hist') > Len(hist) /\ hist'[Len(hist')].e = "ret") => PrintT(<<"BEH", ToJson(hist')>>)
+Export == ExportRet
 
 \* run returns a status only if the child was reaped, and leaves nothing behind
 RunTruthful ==
